@@ -300,15 +300,19 @@ class Engine(StmtMixin):
             self.havoc_path(st, sctx, p)
         results = []
         for cname, clauses in c.raises.items():
-            s2 = st.clone()
-            cls = self.class_by_name(cname)
-            exc = self.make_exc(s2, cls, ())
-            self.populate_exc(s2, exc, cname, c)
-            ectx = self.spec_ctx(fi, frame, (old, frame), {**specials, "exc": exc})
-            for cl in clauses:
-                s2.assume(self.eval_clause(cl, s2, ectx))
-            if self.feasible(s2):
-                results.append((s2, Raise(exc)))
+            classes = [self.class_by_name(cname)]
+            if cname in ("BaseException", "Exception", "OSError"):
+                from .interp import EXC_REPRESENTATIVES
+                classes = [PyClass(k) for k in EXC_REPRESENTATIVES if self.is_subclass(PyClass(k), classes[0])]
+            if classes:
+                s2 = st.clone()
+                exc = self.make_exc_any(s2, classes)
+                self.populate_exc(s2, exc, cname, c)
+                ectx = self.spec_ctx(fi, frame, (old, frame), {**specials, "exc": exc})
+                for cl in clauses:
+                    s2.assume(self.eval_clause(cl, s2, ectx))
+                if self.feasible(s2):
+                    results.append((s2, Raise(exc)))
         res = self.make_result(st, c, sctx)
         nctx = self.spec_ctx(fi, frame, (old, frame), {**specials, "result": res})
         for cl in c.ensures:
@@ -388,6 +392,7 @@ class Engine(StmtMixin):
                 fr[extra[1:]] = self.make_symbolic(st, t, extra[1:])  # free variables of a nested function
         lo, yo = ordinals(fi.node)
         ctx = Ctx(fi, frame, c, True, False, None, lo, yo, (), {}, None, fi.qualname)
+        self.top_ctx = ctx
         sctx = ctx.sub(spec=True)
         # ghost locals
         for g, init in c.ghost.items():
@@ -426,6 +431,26 @@ class Engine(StmtMixin):
         for cl in sh.invariant:
             st.assume(self.eval_clause(cl, st, ictx))
 
+    def apply_rely(self, st: State, ctx: Ctx, line: int) -> None:
+        """At a suspension point of the function under verification: the atomic invariants must hold (obligation), then
+        the paths named by the contract's `rely_havoc` change arbitrarily subject to `rely_inv` (what other tasks may do)."""
+        top = self.top_ctx
+        if top is None or top.contract is None:
+            return
+        c = top.contract
+        rh = c.env.get("rely_havoc", [])
+        ri = c.env.get("rely_inv", [])
+        if not rh and not ri:
+            return
+        from .contracts import _clauses
+        sctx = top.sub(spec=True)
+        for cl in _clauses(c.env.get("atomic_inv", [])):
+            self.oblige(st, self.eval_clause(cl, st, sctx), "atomic-inv", line, f"before-suspension:{cl.name}", cl.tags)
+        for pth in rh:
+            self.havoc_path(st, sctx, pth)
+        for cl in _clauses(ri) + _clauses(c.env.get("atomic_inv", [])):
+            st.assume(self.eval_clause(cl, st, sctx))
+
     def oblige_sat(self, st: State, line: int, name: str) -> None:
         base = f"{self.cur_fn_key}:vacuity:{name}"
         n = self._ident_count.get(base, 0) + 1
@@ -438,12 +463,8 @@ class Engine(StmtMixin):
 
     def check_exit(self, st: State, ctx: Ctx, c: Contract, oc: Any, fi: FuncInfo) -> None:
         ectx = ctx.sub(spec=True)
-        if isinstance(oc, Raise):
-            _cls = META[oc.exc.oid].cls
-            kind_name = _cls.cls.__name__ if isinstance(_cls, PyClass) else _cls.ci.name
-        else:
-            kind_name = "normal"
-        self.oblige_sat(st, fi.node.lineno, f"exit-live:{kind_name}")
+        if not isinstance(oc, Raise):
+            self.oblige_sat(st, fi.node.lineno, "exit-live:normal")
         if isinstance(oc, (Normal, Return)):
             val = oc.val if isinstance(oc, Return) else None
             ectx.specials["result"] = val
@@ -454,22 +475,27 @@ class Engine(StmtMixin):
             self.check_frame(st, ctx, c, fi)
             return
         if isinstance(oc, Raise):
-            cls = META[oc.exc.oid].cls
-            cname = cls.cls.__name__ if isinstance(cls, PyClass) else cls.ci.name
-            matched = None
+            pending = [st]
             for rname, clauses in c.raises.items():
                 rc = self.class_by_name(rname)
-                if self.is_subclass(cls, rc):
-                    matched = (rname, clauses)
-                    break
-            if matched is None:
-                self.oblige(st, z3.BoolVal(False), "exits", fi.node.lineno, f"undeclared-exception:{cname}", c.tags,
+                nxt = []
+                for cur in pending:
+                    for s2, match in self.split_exc(cur, oc.exc, rc):
+                        if not match:
+                            nxt.append(s2)
+                            continue
+                        x2 = ctx.sub(spec=True)
+                        x2.specials["exc"] = oc.exc
+                        self.oblige_sat(s2, fi.node.lineno, f"exit-live:{rname}")
+                        for cl in clauses:
+                            self.oblige(s2, self.eval_clause(cl, s2, x2), "raises", fi.node.lineno, f"{rname}:{cl.name}", cl.tags)
+                        self.check_frame(s2, ctx, c, fi)
+                pending = nxt
+            for s2 in pending:
+                cname = self.exc_class_name(s2, oc.exc)
+                self.oblige_sat(s2, fi.node.lineno, f"exit-live:{cname}")
+                self.oblige(s2, z3.BoolVal(False), "exits", fi.node.lineno, f"undeclared-exception:{cname}", c.tags,
                             note=f"exception class {cname} is not in the declared raise set {sorted(c.raises)}")
-                return
-            ectx.specials["exc"] = oc.exc
-            for cl in matched[1]:
-                self.oblige(st, self.eval_clause(cl, st, ectx), "raises", fi.node.lineno, f"{matched[0]}:{cl.name}", cl.tags)
-            self.check_frame(st, ctx, c, fi)
             return
         raise EngineError(f"{c.key}: outcome {oc!r} escaped the function")
 
